@@ -40,7 +40,7 @@ def name(i):
     return "main" if i == 0 else f"m{i}"
 
 
-def module_source(i, edges, params, subdir, extra=None):
+def module_source(i, edges, params, subdir, extra=None, noexp=frozenset()):
     """source of module i; edges/params: outgoing edges of the project; subdir: set of modules living in sub/"""
     me = name(i)
     out = [f'print "init {me}"']
@@ -52,6 +52,9 @@ def module_source(i, edges, params, subdir, extra=None):
         else:
             path = {"m": base, "m.ms": f"{base}.ms", "./m": f"./{base}"}[spelling]
         L = []
+        if j in noexp:
+            # a module that exports nothing (it only has side effects): it can only be imported as a whole
+            return [f"import {path}", f'print "{me}:{base} imported"']
         if form == "module":
             L.append(f"import {path}")
             L.append(f'print "{me}:{base} peek " + {base}.peek{j}()')
@@ -75,9 +78,12 @@ def module_source(i, edges, params, subdir, extra=None):
     for j, (form, sp, place) in mine:
         if place == "before":
             out += imp_lines(j, form, sp)
-    out += [f"export cnt{i}: int = 0", f"export lst{i}: [int...] = []", f"export const K{i}: int = {i * 11}", f"hidden{i} = {i}",
-            f"export bump{i}: fn() -> int = fn() -> int {{", f"\tmodify cnt{i} = cnt{i} + 1", f"\treturn cnt{i}", "}",
-            f"export peek{i}: fn() -> int = fn() -> int {{", f"\treturn cnt{i} + hidden{i} - {i}", "}"]
+    if i in noexp:
+        out += [f"side{i} = {i}", f'print "effect {me} " + side{i}']
+    else:
+        out += [f"export cnt{i}: int = 0", f"export lst{i}: [int...] = []", f"export const K{i}: int = {i * 11}", f"hidden{i} = {i}",
+                f"export bump{i}: fn() -> int = fn() -> int {{", f"\tmodify cnt{i} = cnt{i} + 1", f"\treturn cnt{i}", "}",
+                f"export peek{i}: fn() -> int = fn() -> int {{", f"\treturn cnt{i} + hidden{i} - {i}", "}"]
     for j, (form, sp, place) in mine:
         if place == "between":
             out += imp_lines(j, form, sp)
@@ -91,12 +97,15 @@ def module_source(i, edges, params, subdir, extra=None):
     return "\n".join(out) + "\n"
 
 
-def expected(n, edges, params):
+def expected(n, edges, params, noexp=frozenset()):
     loaded = {}
     out = []
 
     def use(i, j, form):
         me, base = name(i), name(j)
+        if j in noexp:
+            out.append(f"{me}:{base} imported")
+            return
         st = loaded[j]
         copied = st["cnt"]
         out.append(f"{me}:{base} peek {st['cnt']}")
@@ -114,6 +123,8 @@ def expected(n, edges, params):
         out.append(f"init {name(i)}")
         mine = [(j, params[(a, j)]) for (a, j) in edges if a == i]
         for place in PLACES:
+            if place == "between" and i in noexp:
+                out.append(f"effect {name(i)} {i}")
             if place == "after":
                 out.append(f"mid {name(i)}")
             for j, (form, sp, pl) in mine:
@@ -132,7 +143,8 @@ class C11(Check):
     rule = ("all import DAGs over n modules (edges from lower to higher index, every module reachable from the entry) x per edge "
             "(import form in {import m, import a, b from m}, path spelling in {m, m.ms, ./m}, placement of the import before / between / "
             "after the importer's side-effecting statements) - all combinations for n <= 3, at most one (quick) / two (thorough) deviating "
-            "edges for n = 4 and one for n = 5; variants with the imported leaf module in a sub-directory; negative cases (non-exported "
+            "edges for n = 4 and one for n = 5; variants with the imported leaf module in a sub-directory; variants in which leaf modules export "
+            "nothing (side effects only); negative cases (non-exported "
             "name through the module and through `import x from`, assignment to an exported member).  Each project is run in memory and "
             "from files.  State of the reference loader = (set of initialised modules, per-module counter and list); every project is one "
             "model trace replayed on the implementation.")
@@ -188,7 +200,24 @@ class C11(Check):
                                     for sd in itertools.combinations(leaves, r):
                                         yield (n, edges, tuple(combo), sd)
 
-        ls = [("L0-negative-cases", list(negatives()))]
+        def noexports(nmax, k):
+            d = EDGE_PARAMS.index(DEFAULT)
+            mods = [x for x in range(len(EDGE_PARAMS)) if EDGE_PARAMS[x][0] == "module"]
+            for n in range(2, nmax + 1):
+                for edges in dags(n):
+                    leaves = [j for j in range(1, n) if not any(a == j for a, _ in edges)]
+                    for r in range(1, len(leaves) + 1):
+                        for ne in itertools.combinations(leaves, r):
+                            for kk in range(0, k + 1):
+                                for which in itertools.combinations(range(len(edges)), kk):
+                                    for vals in itertools.product([x for x in mods if x != d], repeat=kk):
+                                        combo = [d] * len(edges)
+                                        for w, v in zip(which, vals):
+                                            combo[w] = v
+                                        yield (n, edges, tuple(combo), (), ne)
+
+        ls = [("L0-negative-cases", list(negatives())),
+              ("L0b-leaf-modules-without-exports", noexports(4, 1) if tier == "quick" else noexports(5, 1))]
         if tier == "quick":
             ls += [("L1-n<=2-all-combinations", all_combos(2)), ("L2-n=3-<=2-deviating-edges", deviating(3, 2)),
                    ("L3-subdirectory-leaves-<=1-deviating-edge", subdirs_dev(1)), ("L4-n=4-<=1-deviating-edge", deviating(4, 1))]
@@ -201,19 +230,20 @@ class C11(Check):
     def describe(self, case):
         if case[0] == "neg":
             return {"negative": case[1], "spelling": SPELLINGS[case[2]]}
-        n, edges, combo, sd = case
-        return {"n": n, "edges": [f"{name(a)}->{name(b)}:{'/'.join(EDGE_PARAMS[c])}" for (a, b), c in zip(edges, combo)], "subdir": list(sd)}
+        n, edges, combo, sd = case[:4]
+        return {"noexp": list(case[4]) if len(case) > 4 else [], "n": n, "edges": [f"{name(a)}->{name(b)}:{'/'.join(EDGE_PARAMS[c])}" for (a, b), c in zip(edges, combo)], "subdir": list(sd)}
 
     def project(self, case):
-        n, edges, combo, sd = case
+        n, edges, combo, sd = case[:4]
+        ne = frozenset(case[4]) if len(case) > 4 else frozenset()
         params = {e: EDGE_PARAMS[c] for e, c in zip(edges, combo)}
         files = {}
         for i in range(n):
             fname = ("main.ms" if i == 0 else f"m{i}.ms")
             if i in sd:
                 fname = "sub/" + fname
-            files[fname] = module_source(i, edges, params, set(sd))
-        return files, expected(n, edges, params), params
+            files[fname] = module_source(i, edges, params, set(sd), noexp=ne)
+        return files, expected(n, edges, params, ne), params
 
     def run_neg(self, case):
         _, kind, spi = case
@@ -271,15 +301,15 @@ class C11(Check):
                              "what": f"{desc} [{path}]: " + (f"module initialised more than once: {dup}; " if dup else "") +
                                      f"line {i}: expected {exp[i] if i < len(exp) else '<end>'!r} got {lines[i] if i < len(lines) else '<end>'!r} (exit {res.exit})",
                              "detail": {"files": files, "res": res.brief(), "expected_lines": exp, "path": path}})
-        n, edges, combo, sd = case
+        n, edges, combo, sd = case[:4]
         return {"outcome": "ok" + ("-DIFF" if viol else ""), "viol": viol, "nontrivial": len(edges) >= 1,
-                "tags": [f"n{n}", f"edges{len(edges)}"] + (["subdir"] if sd else []) + (["diamond"] if any(
+                "tags": [f"n{n}", f"edges{len(edges)}"] + (["subdir"] if sd else []) + (["noexp"] if len(case) > 4 and case[4] else []) + (["diamond"] if any(
                     sum(1 for (_, b) in edges if b == j) > 1 for j in range(n)) else []),
                 "counters": {"states": len(exp) + 1, "transitions": len(exp), "traces": 2}}
 
     def finish(self, stats, tier):
         errs = []
-        for t in ("diamond", "subdir", "neg", "n3", "n4"):
+        for t in ("diamond", "subdir", "neg", "n3", "n4", "noexp"):
             if not stats["tags"].get(t):
                 errs.append(f"vacuity: no project with tag {t}")
         if stats["tags"].get("rejected"):
